@@ -30,3 +30,11 @@ package snappy
 //@   requires z != nil && z.Reader != nil && z.pool != nil
 //@   before sync.(*Pool).Put assert [C18.pool.reader] !z.Reader.busy
 //@   modifies z.Reader.busy, z.Reader.rest, elems(p)
+
+// every pooled wrapper owns its own underlying compressor: two streams open at the same time never
+// share one (the pool's New function builds a new one per wrapper)
+//@ import gs "github.com/klauspost/compress/snappy"
+//@ func snappy.init.1$1
+//@   requires *c != nil
+//@   ensures [C18.pool.own] typeIs(result, *writer) && asType(result, *writer) != nil && fresh(asType(result, *writer)) && asType(result, *writer).Writer != nil && fresh(asType(result, *writer).Writer)
+//@   modifies nothing
